@@ -9,6 +9,9 @@
 //                                              every byte, through all functions (b64: the base64 ones only)
 //   codec_drv ptr1mod4                         b64url::decode(begin,end,target) on input of length 1 mod 4
 //   codec_drv ext <hexprefix>                  the prefix extended by every byte, as complete Call events
+//   codec_drv pieces <shard> <nshards>         template filters fed by ONE streamable object whose operator<< issues
+//                                              several writes (all 2-/3-piece length combinations, char-by-char, random
+//                                              piece sequences, booster::locale::format); judged on the concatenation
 //   codec_drv urlsb                              util::urlencode(begin,end,streambuf&) into truncating sinks
 //   codec_drv big <n> <maxlen>                 a few long random strings
 // One "Call" event per input: the results of all functions, grouped by identical outcome.  The driver
@@ -18,6 +21,7 @@
 #include <cppcms/base64.h>
 #include <cppcms/filters.h>
 #include <cppcms/form.h>
+#include <booster/locale/format.h>
 #include <sstream>
 #include <iostream>
 #include <map>
@@ -60,7 +64,7 @@ struct result {
 	{
 		// results are only grouped within one family of functions
 		int fam = fn.find("urlencode")!=std::string::npos ? 2 : fn.find("urldecode")!=std::string::npos ? 3 :
-			  (fn.find("b64enc")!=std::string::npos || fn=="filter_b64") ? 4 : fn=="b64dec_str" ? 5 : fn=="b64dec_ptr" ? 6 : 1;
+			  (fn.find("b64enc")!=std::string::npos || fn=="filter_b64") ? 4 : fn=="b64dec_str" ? 5 : fn=="b64dec_ptr" ? 6 : fn=="filter_jsescape" ? 7 : 1;
 		std::ostringstream k; k<<fam<<'|'<<out.size()<<':'<<out<<'|'<<sink<<'|'<<cap<<'|'<<fail<<'|'<<ret<<'|'<<size<<'|'<<canary;
 		return k.str();
 	}
@@ -459,6 +463,102 @@ static int do_ptr1mod4()
 	return 0;
 }
 
+// ------------------------------------------------------------------ multi-piece writes through one filter instance
+// A streamable object whose operator<< writes its text in several pieces: how = 0 one ostream::write per piece,
+// 1 operator<<(std::string) per piece, 2 character by character (put)
+struct multi { std::vector<std::string> pieces; int how; };
+static std::ostream &operator<<(std::ostream &o,multi const &m)
+{
+	for(size_t i=0;i<m.pieces.size();i++) {
+		std::string const &p=m.pieces[i];
+		if(m.how==0) o.write(p.data(),p.size());
+		else if(m.how==1) o<<p;
+		else for(size_t k=0;k<p.size();k++) o.put(p[k]);
+	}
+	return o;
+}
+
+static std::string piece_text(vt::rng &r,size_t len)
+{
+	static char const special[]="<>&\"';#%+ \\\n\t-_.~/=";
+	std::string s;
+	for(size_t i=0;i<len;i++) {
+		unsigned k=r(10);
+		s+= k<3 ? special[r(sizeof(special)-1)] : k<4 ? char(r(256)) : char(0x21+r(0x5E));
+	}
+	return s;
+}
+
+template<typename Obj>
+static void filters_on(Obj const &obj,std::string const &in,std::vector<size_t> const &lens,int how)
+{
+	using namespace cppcms;
+	std::vector<result> rs;
+	{ result r("filter_escape"); std::ostringstream os; os<<filters::escape(filters::streamable(obj)); r.fail=!os; r.out=os.str(); rs.push_back(r); }
+	{ result r("filter_urlencode"); std::ostringstream os; os<<filters::urlencode(filters::streamable(obj)); r.fail=!os; r.out=os.str(); rs.push_back(r); }
+	{ result r("filter_b64"); std::ostringstream os; os<<filters::base64_urlencode(filters::streamable(obj)); r.fail=!os; r.out=os.str(); rs.push_back(r); }
+	{ result r("filter_jsescape"); std::ostringstream os; os<<filters::jsescape(filters::streamable(obj)); r.fail=!os; r.out=os.str(); rs.push_back(r); }
+	tr.line(vt::J().s("e","Call").bytes("in",in).a("pieces",lens).i("how",how).raw("r",group(rs)).str());
+}
+
+static void pieces_case(vt::rng &r,std::vector<size_t> const &lens,int how)
+{
+	multi m; m.how=how;
+	std::string in;
+	for(size_t i=0;i<lens.size();i++) { m.pieces.push_back(piece_text(r,lens[i])); in+=m.pieces.back(); }
+	filters_on(m,in,lens,how);
+}
+
+static int do_pieces(int shard,int nshards)
+{
+	bool thorough = std::string(getenv("VERIF_TIER")?getenv("VERIF_TIER"):"quick")=="thorough";
+	vt::rng r(vt::envl("VERIF_SEED",1)*49157+shard);
+	static const size_t L2[]={0,1,2,63,64,126,127,128,129,200,1000};
+	static const size_t L3q[]={0,1,63,127,128,129,200};
+	std::vector<size_t> l2(L2,L2+11), l3 = thorough ? l2 : std::vector<size_t>(L3q,L3q+7);
+	unsigned long idx=0;
+	#define MINE() ((int)(idx++%nshards)==shard)
+	#define CASE(lens,how) do { reset_every(40,"pieces"); pieces_case(r,lens,how); } while(0)
+	for(size_t a=0;a<l2.size();a++) for(size_t b=0;b<l2.size();b++) {
+		if(!MINE()) continue;
+		std::vector<size_t> v; v.push_back(l2[a]); v.push_back(l2[b]);
+		CASE(v,0);
+		if((a+b)%3==0) CASE(v,1);
+	}
+	for(size_t a=0;a<l3.size();a++) for(size_t b=0;b<l3.size();b++) for(size_t c=0;c<l3.size();c++) {
+		if(!MINE()) continue;
+		std::vector<size_t> v; v.push_back(l3[a]); v.push_back(l3[b]); v.push_back(l3[c]);
+		CASE(v,0);
+	}
+	// character by character, and one piece only
+	for(size_t a=0;a<l2.size();a++) {
+		if(!MINE()) continue;
+		std::vector<size_t> v; v.push_back(l2[a]);
+		CASE(v,2); CASE(v,0); CASE(v,1);
+	}
+	// random piece sequences
+	int nrand = thorough ? 3000 : 240;
+	for(int i=0;i<nrand;i++) {
+		if(!MINE()) continue;
+		std::vector<size_t> v;
+		int np=1+r(6);
+		for(int k=0;k<np;k++) v.push_back(r.chance(1,2) ? l2[r(l2.size())] : r.chance(1,2) ? r(300) : 100+r(60));
+		CASE(v,r.chance(1,6) ? 2 : r(2));
+	}
+	// booster::locale::format: a short literal / argument, then a long argument
+	for(size_t a=0;a<l2.size();a++) for(int w=0;w<2;w++) {
+		if(!MINE()) continue;
+		std::string who=piece_text(r,w?1+r(20):0), text=piece_text(r,l2[a]);
+		booster::locale::format f("<{1}> wrote: {2}");
+		f % who % text;
+		std::ostringstream plain; plain<<f;
+		std::vector<size_t> v; v.push_back(who.size()); v.push_back(text.size());
+		reset_every(40,"pieces");
+		filters_on(f,plain.str(),v,3);
+	}
+	return 0;
+}
+
 static int do_urlsb()
 {
 	// util::urlencode(begin,end,streambuf&) into a sink that accepts only `cap` characters;
@@ -489,6 +589,7 @@ int main(int argc,char **argv)
 	else if(m=="rows" && argc>=5) rc=do_rows(atoi(argv[2]),atoi(argv[3]),std::string(argv[4])=="b64");
 	else if(m=="ptr1mod4") rc=do_ptr1mod4();
 	else if(m=="urlsb") rc=do_urlsb();
+	else if(m=="pieces" && argc>=4) rc=do_pieces(atoi(argv[2]),atoi(argv[3]));
 	tr.close();
 	return rc;
 }
